@@ -50,6 +50,7 @@ func (s *State) clone() *State {
 // Unit is the verification of one function (one SMT script).
 type Unit struct {
 	eng      *Engine
+	refDefs  map[string]string // named allocation references (new!...) -> their defining term
 	// sidx0 (contract option `opt sidx0 = true`): wrap slice positions in sidx(off, i) also for the
 	// literal offset 0, so that quantifier instantiation can match positions of a slice whose offset
 	// is only known to be 0 after a merge of branches
@@ -66,6 +67,8 @@ type Unit struct {
 	exact    bool
 	obls     []*Oblig
 	oblNames map[string]int
+	// AssumedLabels: clause labels used as hypotheses without an obligation in this unit (AssumeGroups)
+	AssumedLabels map[string]bool
 	assumptions map[string]bool // textual assumptions used (reported in evidence)
 	nopanic  bool               // generate nopanic obligations
 	embFuncs map[string]bool
@@ -95,7 +98,7 @@ type Unit struct {
 
 func newUnit(eng *Engine, name string) *Unit {
 	u := &Unit{eng: eng, name: name, declared: map[string]bool{}, heapSort: map[string]Sort{},
-		strLits: map[string]T{}, oblNames: map[string]int{}, assumptions: map[string]bool{},
+		strLits: map[string]T{}, oblNames: map[string]int{}, AssumedLabels: map[string]bool{}, assumptions: map[string]bool{},
 		embFuncs: map[string]bool{}, dtypes: map[string]bool{}, tagOf: map[string]int{}, immutableGlobal: map[string]bool{}}
 	u.prelude()
 	return u
@@ -412,6 +415,12 @@ func (u *Unit) emb(structKey, field string, ref T) T {
 
 func (u *Unit) newRef(st *State, hint string) T {
 	r := u.define("new!"+hint, app(SInt, "+", st.alloc, intLit(1)))
+	if u.refDefs == nil {
+		u.refDefs = map[string]string{}
+	}
+	if r.S != "(+ "+st.alloc.S+" 1)" {
+		u.refDefs[r.S] = "(+ " + st.alloc.S + " 1)" // a named reference: remember what it stands for
+	}
 	if r.S == st.alloc.S {
 		panic("define did not rename")
 	}
@@ -495,6 +504,14 @@ func (u *Unit) oblige(st *State, kind, anchor string, goal T, human string) *Obl
 			// not prune that path here
 			return nil
 		}
+	}
+	if (kind == "inv-init" || kind == "inv-step" || kind == "assert" || kind == "assert-noassume") && u.opts.assumedLabel(anchor) {
+		// proved in another unit of the plan (UnitOpts.AssumeGroups)
+		if kind == "assert" {
+			u.assume(st, goal)
+		}
+		u.AssumedLabels[anchor[strings.LastIndex(anchor, "/")+1:]] = true
+		return nil
 	}
 	noAssume := false
 	if kind == "assert-noassume" {
